@@ -253,6 +253,9 @@ def run_shard(spec, tier, seed):
         # embeddings with every keyword spelling, scalar and array values
         def kwval(kind):
             x = float(gen.dyadic(r, 0.2, 3))
+            zero = r.random() < 0.3  # exactly zero (a falsy value) is a legitimate coordinate
+            if zero:
+                x = 0.0
             if kind == "array" and (backend in ("numpy", "awkward") or typed):
                 vals = [x + 0.125 * i for i in range(nrow)]
                 if backend == "numpy" or typed:
